@@ -75,5 +75,18 @@ theorem prop_mul (ns : List Nat) (ws : List (Option K)) (s s' : K) (D1 D2 x : V 
   unfold dftInvCodedNd at this
   rw [this]; ring
 
+/-- padded propagator with the DOCUMENTED inverse: `D ≡ 1` on the padded spectrum gives the identity -/
+theorem propDoc_one (ns ms : List Nat) (ws : List (Option K)) (s s' : K) (D x : V K) (p : Nat)
+    (hfit : FitsPad ns ms) (hr : RootsOpt ms ws) (hs : s * s' * (dftAxesSize ms ws : K) = 1)
+    (hD : ∀ f, f < prodL ms → D f = 1) (hp : p < prodL ns) :
+    propEvalDoc ns ms ws (ws.map (Option.map (·⁻¹))) s s' D x p = x p := by
+  unfold propEvalDoc
+  rw [← dftPad_inv_documented ns ms ws s s' x p hfit hr hs hp]
+  unfold dftInvDocNd
+  congr 1
+  apply dftAxes_congr ms _ _ _ _ _ (embedIdx_lt ns ms p hfit hp)
+  intro q hq
+  rw [hD q hq, one_mul]
+
 end Propagator
 end Scico.LinOps
